@@ -2,7 +2,7 @@ SPECIFICATION Spec
 CONSTANTS
   NWorkers = 3
   MaxChunks = 1
-  Protocol = "fixed"
+  Protocol = "fixed2"
   FaultTasks = 0
   SetupIds = {"inplace3", "mixed3"}
 INVARIANTS NeverLost ReadOnlyUntouched OthersUntouched DoneClean NoLeftoverBackup DestinationsComplete NoDescriptorLeak
